@@ -8,6 +8,17 @@ EV = dict(stream="EV", module="RP.Glue.StreamEV")
 DEC = dict(stream="DEC", module="RP.Glue.StreamDEC")
 AMB = dict(stream="AMB", module="RP.Glue.StreamDEC")
 
+USD = dict(stream="USD", module="RP.Glue.StreamFrame")
+USE = dict(stream="USE", module="RP.Glue.StreamFrame")
+CAD = dict(stream="CAD", module="RP.Glue.StreamFrame")
+CAE = dict(stream="CAE", module="RP.Glue.StreamFrame")
+RULE_USD = ("stream USD (byte string -> from_usart_frame): the empty string, all strings of length 1..3 over a 10-letter alphabet, random strings of every length "
+            "0..=255, valid encodings of generated frames with typed mutations (declared length 0/1/7/8/9/20/255/+-1, appended bytes, truncation, at every position: "
+            "truncate / inject 0x00 / flip a bit / overwrite with 0x00 or 0xff), COBS encodings of random 0..=20-byte (and a few long) bodies")
+RULE_FR = ("streams USE/CAE (well-formed frame -> encoder -> decoder): all 8 flag combinations x both id kinds x ids {0,1,255,256,0xfff,0xa5a} x addresses with zero bytes x "
+           "data lengths 0..=8, then random frames (two thirds fragment-shaped) with boundary-biased ids/addresses and 0x00/0xff runs in the data")
+RULE_CAD = ("stream CAD (driver CAN frame -> from_bxcan_frame): all 8192 patterns of identifier bits 28..16 (flags, all 64 reserved-bit patterns, id nibble) x boundary and random "
+            "addresses x data lengths 0..=8, multi-frame ids without data, standard ids and remote frames of every length, random extended ids")
 RULE_DEC = ("stream DEC (decoder kind, packet): every decoder x every payload length 0..=70 with the kind's code in place and tag-like bytes; "
             "valid encodings from an independent layout table, each perturbed (error flag, every code 0..=0x12/0xffff, length +-1, truncation at a random "
             "point, bit flip, foreign decoder, every variant tag and flag byte 0..=255, 32-bit message tags incl. >= 256, non-zero padding, declared data "
@@ -38,6 +49,34 @@ PROPS = {
              "brightness/relay/message variant, data payloads of boundary and random sizes up to 65535 bytes with constant/coloured/random bytes; "
              "a case is non-trivial when it is a distinct event value (distinct case lines are counted)",
         assumptions=["MessageValue padding bytes are unspecified and masked to zero on the implementation side"],
+    ),
+    "C04": dict(
+        vfiles=["Props/C04"],
+        technique="Coq proof: the COBS decoder model (crate automaton with bounded destination) only outputs bytes, the length guards discharge every checked index, accepted frames satisfy wf_frame; CAN side via the arithmetic layout theorem; correspondence on malformed byte strings and all driver frame shapes",
+        level_text="Theorems C04_usart_total (every byte string of any length: value or error, never a panic; accepted frames are well-formed), C04_can_total (every driver-"
+                   "constructible CAN frame), C04_reencode (a well-formed frame re-encodes for both links and enters reassembly without a panic).",
+        level_note=NOTE_COMMON + " The cobs crate is modelled by hand (Model/Cobs.v) and exercised through the codec by the streams.",
+        streams=[dict(USD, view="view_C04_USD", ok="ok_C04_USD"), dict(CAD, view="view_C04_CAD", ok="ok_C04_CAD")],
+        rule=RULE_USD + "; " + RULE_CAD,
+        assumptions=["'without failure' = re-encoding and feeding to reassembly never panic (reassembly may reject with an error value)"],
+    ),
+    "C08": dict(
+        vfiles=["Props/C08"],
+        technique="Coq proof: shifts/masks rewritten to div/mod (N.shiftr_div_pow2, N.land_ones, disjoint lor = +), flag x nibble combinations by a 128-point vm_compute sweep lifted with forallb_forall, lia; correspondence on all 8192 upper-bit patterns",
+        level_text="Theorems C08_encode_layout (identifier = ne*2^28+st*2^27+mf*2^26+(id/256)*2^16+addr, extended data frame, payload = data bytes), C08_decode_layout (for every "
+                   "driver-constructible frame the decoder equals the arithmetic layout), C08_reserved_ignored, C08_rejects, C08_roundtrip (for every fragment-shaped frame).",
+        level_note=NOTE_COMMON,
+        streams=[dict(CAE, view="view_C08_CAE", ok="ok_C08_CAE"), dict(CAD, view="view_C08_CAD", ok="ok_C08_CAD")],
+        rule=RULE_FR + "; " + RULE_CAD,
+    ),
+    "C09": dict(
+        vfiles=["Props/C09"],
+        technique="Coq proof: COBS round trip by induction over the input generalised over the current run and block-boundary state; header bits by a 128-point sweep; layout and size-mismatch theorems; correspondence on generated frames and COBS-encoded bodies",
+        level_text="Theorems C09_layout, C09_roundtrip (decode(encode f) = f, no zero byte, length = dlen + 6), C09_length_bound (<= 14), C09_decode_all (every 5..13-byte body), "
+                   "C09_size_mismatch, C09_cobs_roundtrip.",
+        level_note=NOTE_COMMON + " The cobs crate is modelled by hand (Model/Cobs.v).",
+        streams=[dict(USE, view="view_C09_USE", ok="ok_C09_USE"), dict(USD, view="view_C09_USD", ok="ok_C09_USD")],
+        rule=RULE_FR + "; " + RULE_USD,
     ),
     "C05": dict(
         vfiles=["Props/C05"],
